@@ -47,7 +47,12 @@ SPEC = {
             "compared, plus GetRegion / GetRegionByKey on boundary keys / LoadRegion; 1 sequence in 6 runs on the real leveldb-backed core.RegionStorage with its write batch (explicit flush ops, "
             "M = what is on disk, reload = CheckAndPutRegion of every stored region into a fresh cache); in the other sequences "
             "1 delivery in 10 is HELD at its first storage write by a gated kv.Base while 1-3 other heartbeats (a newer one of "
-            "the same region with preference) are handled, then released; every 4th sequence also delivers batches of 2-5 "
+            "the same region with preference) are handled, then released; 1 delivery in 12 has its SaveRegion FAIL (gate fail mode; the pinned code logs and carries on); pd's log "
+            "entries are rendered into a discard sink (from debug level in a third of the sequences, else from error level), "
+            "so Stringer log fields run; every second stream runs one sequence through Server.RegionHeartbeat of an in-process "
+            "PD server (in-memory gRPC server streams, one per store, stores re-open their stream and the first message on a "
+            "new stream is often outdated; observed: on which stream an error answer arrives); a panic anywhere on the path is "
+            "recovered and reported (sig=C06.heartbeat-path-panicked); every 4th sequence also delivers batches of 2-5 "
             "heartbeats from concurrent goroutines (judged by the monitor: explained by some one-at-a-time order); non-trivial = "
             "at least 5 accepted and 1 rejected heartbeat and at least two regions served at once; distinct = distinct op sequence",
     "model_text": "PdModel/Model/RegionCache.lean: PreCheckPutRegion/getRelevantRegions, the flag computation, the locked "
@@ -73,7 +78,9 @@ SPEC = {
                   "are well-formed regions (start < end or unbounded end) - a heartbeat with an inverted range is outside the "
                   "property's domain and does corrupt the real tree (docs/C06.md); concurrent batches on the real code are judged by "
                   "the monitor only (schedules not controlled); the batched region storage (RegionStorage.save/remove/flush), reload and the "
-                  "held-heartbeat steps are modelled and monitored (StepOkBatched / FlushOk / GateOk / ReleaseOk) but have no theorem; "
+                  "held-heartbeat steps and the server-stream answers are modelled and monitored (StepOkBatched / FlushOk / GateOk / ReleaseOk "
+                  "/ StreamOk) but have no theorem; that the error answer goes back on the sender's stream additionally rests on the "
+                  "call-order facts of error_answer_goes_to_the_sender; "
                   "RegionStorage's 3 s background flush timer is not modelled (a sequence never idles that long); storage errors are not injected; the -race build is not used.",
     "technique": "Lean 4 refinement + invariant proofs over heartbeat histories and interleavings + differential correspondence + verified monitor",
     "assumptions": [
